@@ -157,6 +157,12 @@ impl Scenario for C05 {
         p.set("enc", e as i64);
         p.set("dec", if rng.chance(1, 2) { 0 } else { 1 + rng.below(9) as i64 });
         plan_transport(&mut rng, &mut p, true);
+        if rng.chance(1, 8) {
+            // the other entry points: from_str (for the UTF-8 flavours) and from_bytes
+            p.set("t", if rng.chance(1, 2) { crate::transport::T_FROM_STR } else { crate::transport::T_FROM_BYTES });
+            p.sched.clear();
+            p.eintr.clear();
+        }
         p
     }
     fn execute(&self, plan: &Plan, st: &mut Stats) -> Result<(), Violation> {
@@ -165,7 +171,10 @@ impl Scenario for C05 {
         let mut dev = SimReader::new(data, &plan.sched, tail, &plan.eintr, None).record_boundaries();
         let which = plan.get("dec").rem_euclid(10);
         st.inc(if which == 0 { "handlers.stub-recorder" } else { "handlers.real-decoder-behind-probe" });
-        let real = if plan.get("t") == T_BUFREADER {
+        let real = if plan.get("t") == crate::transport::T_FROM_STR || plan.get("t") == crate::transport::T_FROM_BYTES {
+            st.inc(crate::transport::transport_name(plan.get("t")));
+            entry_point(which, data, plan.get("t") == crate::transport::T_FROM_STR)
+        } else if plan.get("t") == T_BUFREADER {
             st.inc(crate::transport::transport_name(T_BUFREADER));
             st.inc("fired.R6-std-BufReader-composition");
             deliveries(which, BufReader::with_capacity(plan.get_or("cap", 8).max(1) as usize, DevRef(&mut dev)))
@@ -218,6 +227,33 @@ fn deliveries<R: std::io::BufRead>(which: i64, r: R) -> std::io::Result<Rec> {
         8 => conv(Probe::<TimingPoints>::decode(r)?),
         9 => conv(Probe::<HitObjects>::decode(r)?),
         _ => Rec::decode(r)?,
+    })
+}
+
+/// The same through `rosu_map::from_str` (when the bytes are UTF-8) / `rosu_map::from_bytes`.
+fn entry_point(which: i64, data: &[u8], as_str: bool) -> std::io::Result<Rec> {
+    use crate::probe::Probe;
+    use rosu_map::section::{colors::Colors, difficulty::Difficulty, editor::Editor, events::Events, general::General, hit_objects::HitObjects, metadata::Metadata, timing_points::TimingPoints};
+    fn conv<D: DecodeBeatmap>(p: Probe<D>) -> Rec {
+        Rec { version: p.version, log: p.log.into_iter().map(|(s, l, _)| (s, l)).collect() }
+    }
+    fn go<D: DecodeBeatmap>(data: &[u8], as_str: bool) -> std::io::Result<D> {
+        match std::str::from_utf8(data) {
+            Ok(s) if as_str => rosu_map::from_str::<D>(s),
+            _ => rosu_map::from_bytes::<D>(data),
+        }
+    }
+    Ok(match which {
+        1 => conv(go::<Probe<rosu_map::Beatmap>>(data, as_str)?),
+        2 => conv(go::<Probe<General>>(data, as_str)?),
+        3 => conv(go::<Probe<Editor>>(data, as_str)?),
+        4 => conv(go::<Probe<Metadata>>(data, as_str)?),
+        5 => conv(go::<Probe<Difficulty>>(data, as_str)?),
+        6 => conv(go::<Probe<Events>>(data, as_str)?),
+        7 => conv(go::<Probe<Colors>>(data, as_str)?),
+        8 => conv(go::<Probe<TimingPoints>>(data, as_str)?),
+        9 => conv(go::<Probe<HitObjects>>(data, as_str)?),
+        _ => go::<Rec>(data, as_str)?,
     })
 }
 
